@@ -26,9 +26,9 @@ Oracles (none of them calls the code under test):
              max_length() (exact for the integer table, 1e-9 relative for floats).  For the
              integer table the returned set must also be complete (all source-to-wire paths
              of maximal delay) and equal across schedules.
- max_freq    1e6 / (s*(L+189+194)) resp. 1e6 / (s*L + ffoverhead) with s = 130/tech_in_nm
-             (the function's only "documentation" is its code; the oracle takes the formula
-             as is -- see probe `max_freq_smaller_tech_is_slower`).
+ max_freq    1e6 / (s*(L+189+194)) resp. 1e6 / (s*L + ffoverhead) with s = tech_in_nm/130
+             (Dennard scaling as the docstring states: the 130nm-calibrated delays scale
+             linearly with the feature size; a smaller technology is never estimated slower).
  fanout      number of argument positions, over all nets, that are the wire.
  paths       MY READING of analysis.paths' docstring: a path from src to dst is a list of
              DISTINCT nets n1..nk such that src is an argument of n1, the dest of n_i is an
@@ -781,7 +781,9 @@ def check_timing(case, b, g, res, label):
         # ---- max_freq -----------------------------------------------------------------
         f130 = None
         for tech, ff in case['freq']:
-            s = 130.0 / tech
+            # Dennard scaling (the docstring's stated assumption): delays calibrated at 130nm
+            # scale linearly with the feature size
+            s = tech / 130.0
             if ff is None:
                 period = s * (mx + 189 + 194)
                 gf = call('max_freq', tags, ta.max_freq, tech_in_nm=tech)
@@ -796,8 +798,9 @@ def check_timing(case, b, g, res, label):
             if ff is None and tech == 130:
                 f130 = gf
             if ff is None and tech < 130 and f130 is not None and gf < f130:
-                # not judged: the docstring promises "Dennard scaling" but gives no formula
-                res.probes.hit('max_freq_smaller_tech_is_slower')
+                return Violation('max_freq', 'smaller_technology_estimated_slower',
+                                 {'build': label, 'tech_in_nm': tech, 'got': gf, 'at_130nm': f130},
+                                 tags), None
         gd = call('max_freq', tags, ta.max_freq)
         if not math.isclose(gd, 1e6 / (mx + 189 + 194), rel_tol=1e-9):
             return Violation('max_freq', 'default_formula', {'got': gd, 'max_length': mx}, tags), None
